@@ -17,6 +17,7 @@ package sync
 //@   panics when cfg.ReferenceClockImpact <= 1.0 || cfg.PeerClockImpact <= 1.0 || cfg.PeerClockImpact-1.0 <= cfg.ReferenceClockImpact || cfg.SyncInterval <= 0 || cfg.SyncTimeout < 0 || cfg.SyncTimeout > cfg.SyncInterval/2
 //@   loop 0 invariant calls("Adjustment.Do") == calls("SystemClock.Sleep")
 //@   loop 0 invariant refClkMaxCorr > 0 && peerClkMaxCorr > 0
+//@   loop 0 invariant cfg.ReferenceClockImpact > 1.0 && cfg.PeerClockImpact > 1.0 && cfg.PeerClockImpact-1.0 > cfg.ReferenceClockImpact && cfg.SyncInterval > 0 && 0 <= cfg.SyncTimeout && cfg.SyncTimeout <= cfg.SyncInterval/2
 //@   callsite adj.Do 0 requires calls("Adjustment.Do") == calls("SystemClock.Sleep")
 //@   callsite clk.Sleep 0 requires calls("Adjustment.Do") == calls("SystemClock.Sleep")+1
 //@   callsite adj.Do 0 requires refClkOk == (len(refClks) != 0) && (peerClkOff.Abs() <= cfg.PeerClockCutoff ==> !peerClkOk)
